@@ -7,8 +7,8 @@ use rand::Rng;
 use serde_json::{json, Value};
 use std::collections::{BTreeMap, BTreeSet, HashMap};
 
-const USER_SYMBOLS: [&str; 14] = [
-    "hi", "hello", "he", "llo", "", "ab", "a", "b", "integer", "string", "h\u{e9}llo", "abab", "x/y", "set",
+const USER_SYMBOLS: [&str; 18] = [
+    "hi", "hello", "he", "llo", "", "ab", "a", "b", "integer", "string", "h\u{e9}llo", "abab", "x/y", "set", "re", "ad", "us", "er",
 ];
 
 pub fn base_table() -> SymbolTable {
@@ -500,6 +500,40 @@ pub fn run(opts: &Opts) {
         }
     }
 
+    // strings built during evaluation: equal to a string of the table, to a default symbol ("re" + "ad"), to themselves
+    {
+        let s = |t: &str| Term::Str(1024 + USER_SYMBOLS.iter().position(|x| *x == t).unwrap() as u64);
+        let pairs: Vec<(Term, Term, Term)> = vec![
+            (s("re"), s("ad"), Term::Str(0)),
+            (s("us"), s("er"), Term::Str(10)),
+            (s(""), Term::Str(0), Term::Str(0)),
+            (Term::Str(0), s(""), Term::Str(0)),
+            (s("a"), s("b"), s("ab")),
+            (s("he"), s("llo"), s("hello")),
+            (s("ab"), s("ab"), s("abab")),
+            (s("re"), s("a"), Term::Str(0)),
+        ];
+        for (l, r, whole) in pairs.iter() {
+            for b in [Binary::Equal, Binary::HeterogeneousEqual, Binary::NotEqual, Binary::HeterogeneousNotEqual, Binary::Contains, Binary::Prefix] {
+                let cat = vec![Op::Value(l.clone()), Op::Value(r.clone()), Op::Binary(Binary::Add)];
+                let mut ops = cat.clone();
+                ops.push(Op::Value(whole.clone()));
+                ops.push(Op::Binary(b.clone()));
+                emit(&mut sink, make_case(&symbols, &vals, &ops), "tableconcat");
+                let mut ops = vec![Op::Value(whole.clone())];
+                ops.extend(cat.clone());
+                ops.push(Op::Binary(b.clone()));
+                emit(&mut sink, make_case(&symbols, &vals, &ops), "tableconcat");
+                let mut ops = cat.clone();
+                ops.extend(cat.clone());
+                ops.push(Op::Binary(b.clone()));
+                emit(&mut sink, make_case(&symbols, &vals, &ops), "tableconcat");
+                let mut ops = cat.clone();
+                ops.push(Op::Unary(Unary::Length));
+                emit(&mut sink, make_case(&symbols, &vals, &ops), "tableconcat");
+            }
+        }
+    }
     // what is left of a closure's parameter after the closure: nothing (a later use is an unknown variable, a sibling
     // closure may take the same name), whether the iteration stopped early or ran to the end
     for b in [Binary::All, Binary::Any] {
